@@ -110,7 +110,10 @@ pub fn spell(ns: i64, sp: Spell) -> Option<Value> {
             }
             let f = ns as f64 / 1e9;
             // only when the float is exact enough to denote the same millisecond
-            if ((f * 1e9).round() as i64 - ns).abs() < 500_000 && f.abs() < 9e9 { Some(json!(f)) } else { None }
+            // ... and lies in the same second: beyond 2^53 ns the conversion itself rounds, and an instant on a second
+            // boundary can come out as x.9999995, which denotes the previous second (correction 17 in DESIGN.md)
+            let same_second = (f.floor() as i64) == ns.div_euclid(1_000_000_000);
+            if ((f * 1e9).round() as i64 - ns).abs() < 500_000 && f.abs() < 9e9 && same_second { Some(json!(f)) } else { None }
         }
     }
 }
